@@ -45,6 +45,7 @@ def specResponse (e : End) (s : Bytes) : Option (Nat × List (Bytes × Bytes) ×
   if m.status < 100 then none
   -- a conforming server sends token field names and Content-Length values that fit an int
   if !m.fields.all (fun kv => Spec.Http.isToken kv.1) then none
+  if !m.trailers.all (fun kv => Spec.Http.isToken kv.1) then none
   if !m.fields.all (fun kv => Spec.Resp.lowerAll kv.1 != Spec.Resp.sCL || kv.2.length ≤ 18) then none
   -- obs-fold and bare-LF lines are rejected by the strict reader already; trailers must be declared to be kept
   match m.framing with
